@@ -5,42 +5,57 @@
    scope (which includes the nested task), then submits finally, then fail (if the
    body failed and a fail handler is defined) or success (if it did not and one is
    defined); the handlers are tasks of the SURROUNDING scope and run concurrently.
-   Variant "early" submits the handlers without waiting for the body (regression). *)
+   A handler that fails marks the surrounding scope as failed; a handler submitted
+   after that is refused ("cut") and the refusal is reported on the surrounding scope,
+   which the command's Close is waiting on at that time.
+   Variant "early" submits the handlers without waiting for the body (regression);
+   variant "closedguard" treats the surrounding scope as closed from the moment its Close
+   starts, so that report panics and takes the process down (regression, fixed). *)
 EXTENDS Naturals, Sequences, FiniteSets, TLC
 CONSTANTS K, Variant
 VARIABLES failAt, nested, defined, hfails,      \* fixed: failing body command (0 = none), "none"|"ok"|"fail", handlers defined, handlers that fail
-          bcmd, brun, bdone, bfailed, nstate, waited, submitted, hstate, outerErr
-vars == <<failAt, nested, defined, hfails, bcmd, brun, bdone, bfailed, nstate, waited, submitted, hstate, outerErr>>
+          bcmd, brun, bdone, bfailed, nstate, waited, submitted, hstate, outerErr, crashed
+vars == <<failAt, nested, defined, hfails, bcmd, brun, bdone, bfailed, nstate, waited, submitted, hstate, outerErr, crashed>>
 H == {"success", "fail", "finally"}
 Init == /\ failAt \in 0..K /\ nested \in {"none", "ok", "fail"} /\ defined \in SUBSET H /\ hfails \in SUBSET H
         /\ bcmd = 0 /\ brun = FALSE /\ bdone = FALSE /\ bfailed = FALSE /\ nstate = "idle" /\ waited = FALSE
-        /\ submitted = {} /\ hstate = [h \in H |-> "idle"] /\ outerErr = FALSE
+        /\ submitted = {} /\ hstate = [h \in H |-> "idle"] /\ outerErr = FALSE /\ crashed = FALSE
 \* the first command of the body is the one that spawns the nested task (when there is one)
 BBegin == /\ ~bdone /\ ~brun /\ bcmd < K /\ brun' = TRUE /\ bcmd' = bcmd + 1
           /\ nstate' = IF bcmd = 0 /\ nested # "none" THEN "running" ELSE nstate
-          /\ UNCHANGED <<failAt, nested, defined, hfails, bdone, bfailed, waited, submitted, hstate, outerErr>>
+          /\ UNCHANGED <<failAt, nested, defined, hfails, bdone, bfailed, waited, submitted, hstate, outerErr, crashed>>
 BEnd == /\ brun /\ brun' = FALSE
         /\ IF bcmd = failAt THEN bfailed' = TRUE /\ bdone' = TRUE /\ UNCHANGED nstate
            ELSE IF bcmd = K THEN bdone' = TRUE /\ UNCHANGED <<bfailed, nstate>>
            ELSE UNCHANGED <<bfailed, bdone, nstate>>
-        /\ UNCHANGED <<failAt, nested, defined, hfails, bcmd, waited, submitted, hstate, outerErr>>
+        /\ UNCHANGED <<failAt, nested, defined, hfails, bcmd, waited, submitted, hstate, outerErr, crashed>>
 NEnd == /\ nstate = "running" /\ nstate' = "done" /\ bfailed' = (bfailed \/ nested = "fail")
-        /\ UNCHANGED <<failAt, nested, defined, hfails, bcmd, brun, bdone, waited, submitted, hstate, outerErr>>
+        /\ UNCHANGED <<failAt, nested, defined, hfails, bcmd, brun, bdone, waited, submitted, hstate, outerErr, crashed>>
 BodyFinished == bdone /\ nstate # "running"
 Waited == /\ ~waited /\ (Variant = "early" \/ BodyFinished) /\ waited' = TRUE
-          /\ UNCHANGED <<failAt, nested, defined, hfails, bcmd, brun, bdone, bfailed, nstate, submitted, hstate, outerErr>>
+          /\ UNCHANGED <<failAt, nested, defined, hfails, bcmd, brun, bdone, bfailed, nstate, submitted, hstate, outerErr, crashed>>
 ShouldRun(h) == h \in defined /\ (h = "finally" \/ (h = "fail" /\ bfailed) \/ (h = "success" /\ ~bfailed))
-SubmitH(h) == /\ waited /\ h \notin submitted /\ ShouldRun(h) /\ (h # "finally" => ("finally" \in submitted \/ "finally" \notin defined))
+MaySubmit(h) == /\ ~crashed /\ waited /\ h \notin submitted /\ ShouldRun(h) /\ (h # "finally" => ("finally" \in submitted \/ "finally" \notin defined))
+SubmitH(h) == /\ MaySubmit(h) /\ ~outerErr
               /\ submitted' = submitted \cup {h} /\ hstate' = [hstate EXCEPT ![h] = "running"]
-              /\ UNCHANGED <<failAt, nested, defined, hfails, bcmd, brun, bdone, bfailed, nstate, waited, outerErr>>
+              /\ UNCHANGED <<failAt, nested, defined, hfails, bcmd, brun, bdone, bfailed, nstate, waited, outerErr, crashed>>
+\* the surrounding scope has already failed: the task manager refuses the submission, try reports that on the scope
+SubmitCut(h) == /\ MaySubmit(h) /\ outerErr
+                /\ submitted' = submitted \cup {h} /\ hstate' = [hstate EXCEPT ![h] = "cut"]
+                /\ crashed' = (Variant = "closedguard")
+                /\ UNCHANGED <<failAt, nested, defined, hfails, bcmd, brun, bdone, bfailed, nstate, waited, outerErr>>
 HEnd(h) == /\ hstate[h] = "running" /\ hstate' = [hstate EXCEPT ![h] = "done"] /\ outerErr' = (outerErr \/ h \in hfails)
-           /\ UNCHANGED <<failAt, nested, defined, hfails, bcmd, brun, bdone, bfailed, nstate, waited, submitted>>
-AllDone == BodyFinished /\ waited /\ \A h \in H : (ShouldRun(h) => hstate[h] = "done")
-Next == BBegin \/ BEnd \/ NEnd \/ Waited \/ (\E h \in H : SubmitH(h) \/ HEnd(h)) \/ (AllDone /\ UNCHANGED vars)
+           /\ UNCHANGED <<failAt, nested, defined, hfails, bcmd, brun, bdone, bfailed, nstate, waited, submitted, crashed>>
+AllDone == BodyFinished /\ waited /\ \A h \in H : (ShouldRun(h) => hstate[h] \in {"done", "cut"})
+Next == BBegin \/ BEnd \/ NEnd \/ Waited \/ (\E h \in H : SubmitH(h) \/ SubmitCut(h) \/ HEnd(h)) \/ ((AllDone \/ crashed) /\ UNCHANGED vars)
 Spec == Init /\ [][Next]_vars /\ WF_vars(Next)
-HandlersAfterBody == \A h \in H : hstate[h] # "idle" => (~brun /\ nstate # "running" /\ bdone)
-MatchingHandler == /\ (hstate["success"] # "idle" => ~bfailed) /\ (hstate["fail"] # "idle" => bfailed)
+Ran(h) == hstate[h] \in {"running", "done"}
+HandlersAfterBody == \A h \in H : Ran(h) => (~brun /\ nstate # "running" /\ bdone)
+MatchingHandler == /\ (Ran("success") => ~bfailed) /\ (Ran("fail") => bfailed)
 BodyFailureContained == outerErr => \E h \in H : h \in hfails /\ hstate[h] = "done"
-AllRan == AllDone => \A h \in H : (hstate[h] = "done") = ShouldRun(h)
+\* a handler that must not run never runs; one that must run has run unless another handler had failed before
+AllRan == AllDone => /\ \A h \in H : (hstate[h] = "done" => ShouldRun(h)) /\ (hstate[h] = "cut" => outerErr)
+                     /\ (~outerErr => \A h \in H : ShouldRun(h) => hstate[h] = "done")
+NoCrash == ~crashed
 Finishes == <>AllDone
 =============================================================================
